@@ -170,6 +170,11 @@ func builtAs(p *core.Prog, X ssa.Value, kind types.Type, depth int) (string, boo
 func viaPromiseResolve(p *core.Prog, X ssa.Value, kind types.Type) (string, bool) {
 	c, ok := X.(*ssa.Call)
 	if !ok {
+		// `var x *Object; ex := vm.try(func() { x = r.promiseResolve(..) })`: a local written exactly once, by
+		// the closure handed to try
+		c, ok = soleClosureStore(X)
+	}
+	if !ok {
 		return "", false
 	}
 	pr, err := p.GojaMethod("Runtime", "promiseResolve")
@@ -217,4 +222,54 @@ func viaPromiseResolve(p *core.Prog, X ssa.Value, kind types.Type) (string, bool
 		return "result of promiseResolve(%Promise%, x): returns x only after x.self.(*Promise) succeeded, otherwise the promise of a new capability", true
 	}
 	return "", false
+}
+
+// soleClosureStore: X is a load of a local cell that is assigned exactly once in the function and
+// the closures it creates, and that assignment stores the result of a call; returns the call.
+func soleClosureStore(X ssa.Value) (*ssa.Call, bool) {
+	ld, ok := X.(*ssa.UnOp)
+	if !ok || ld.Op != token.MUL {
+		return nil, false
+	}
+	cell, ok := ld.X.(*ssa.Alloc)
+	if !ok {
+		return nil, false
+	}
+	var stores []*ssa.Store
+	for _, r := range core.Referrers(cell) {
+		switch x := r.(type) {
+		case *ssa.Store:
+			if x.Addr == cell {
+				stores = append(stores, x)
+			}
+		case *ssa.MakeClosure:
+			fn, _ := x.Fn.(*ssa.Function)
+			if fn == nil {
+				return nil, false
+			}
+			for bi, b := range x.Bindings {
+				if b != cell {
+					continue
+				}
+				for _, fr := range core.Referrers(fn.FreeVars[bi]) {
+					if st, ok := fr.(*ssa.Store); ok && st.Addr == fn.FreeVars[bi] {
+						stores = append(stores, st)
+					}
+				}
+			}
+		}
+	}
+	// the zero value written by the declaration does not count when it is the nil constant
+	var real []*ssa.Store
+	for _, st := range stores {
+		if k, ok := st.Val.(*ssa.Const); ok && k.IsNil() {
+			continue
+		}
+		real = append(real, st)
+	}
+	if len(real) != 1 {
+		return nil, false
+	}
+	c, ok := real[0].Val.(*ssa.Call)
+	return c, ok
 }
